@@ -71,6 +71,7 @@ func (x *X) Fire(m map[string]int) {
 type scenario struct {
 	pre  func(x *X) // optional dry run, own bubble, boring schedule
 	main func(x *X)
+	free bool // runs free on real goroutines (race detector half of C12), not under the scheduler
 }
 
 var scenarios = map[string]scenario{}
@@ -89,6 +90,17 @@ func RunCase(t *testing.T, c *Case, progress *atomic.Int64, verbose bool) *RunRe
 		return r
 	}
 	x := &X{T: t, C: c, R: r, Pre: map[string]*Outcome{}}
+	if sc.free {
+		func() {
+			defer func() {
+				if p := recover(); p != nil {
+					r.Infra = fmt.Sprint("panic in free-running scenario: ", p)
+				}
+			}()
+			sc.main(x)
+		}()
+		return r
+	}
 	if sc.pre != nil {
 		rep := sched.Run(t, sched.Config{Strategy: "first"}, progress, func(s *sched.Sim) {
 			x.S = s
